@@ -33,49 +33,61 @@ CONSTANTS XValid,        \* the delivered block passes validation in its parent'
           XValidated,    \* the delivered block is validated at all (relay delivery, or a bulk-download height that is validated)
           MinerOn,       \* a found block B is handled concurrently
           SaveAfterValidation, SelectiveClear, AtomicRollback,
+          SaveBeforePublish,       \* (with SaveAfterValidation) the accepted block is buffered for the store (N4) before it is published (N6), so that
+                                   \* nothing built on it can reach the buffer first.  FALSE = the order N6, N4 of the first repair of F-C09c:
+                                   \* the necessity run for I_C09_NoFlushFailure
           MinerHandOverValidated   \* M5 is set_coinstate(state) with validated=True (the default the miner relies on): the found block becomes
                                    \* part of the last validated state.  FALSE: the necessity run for I_C09_RejectionLeavesStateAsItWas
-VARIABLES served, lastValid, buffer, disk, bcast, net, miner
-vars == << served, lastValid, buffer, disk, bcast, net, miner >>
+VARIABLES served, lastValid, buffer, disk, bcast, net, miner,
+          sqlerr      \* a flush hit the chain table's foreign key (a block before its parent): the SQL transaction stays open, every later flush fails
+vars == << served, lastValid, buffer, disk, bcast, net, miner, sqlerr >>
 X == "X"
 B == "B"
 G == "G"
 Range(s) == {s[i] : i \in 1..Len(s)}
 
-Init == /\ served = {G} /\ lastValid = {G} /\ buffer = << >> /\ disk = {G} /\ bcast = {}
+(* parents: X is a child of G; B is a child of the head of the miner's snapshot *)
+ParentOf(b) == IF b = X THEN G ELSE IF X \in miner.snap THEN X ELSE G
+RECURSIVE InOrder(_, _)
+InOrder(seq, placed) == IF seq = << >> THEN TRUE
+                        ELSE /\ (Head(seq) \in placed \/ ParentOf(Head(seq)) \in placed) /\ InOrder(Tail(seq), placed \cup {Head(seq)})
+FlushOK == ~sqlerr /\ InOrder(buffer, disk)
+Init == /\ served = {G} /\ lastValid = {G} /\ buffer = << >> /\ disk = {G} /\ bcast = {} /\ sqlerr = FALSE
         /\ net = [pc |-> "N1", prior |-> {}, changed |-> {}, tmp |-> {}, quiet |-> FALSE]
         /\ miner = [pc |-> IF MinerOn THEN "M1" ELSE "done", snap |-> {}]
 
 NGo(p) == net' = [net EXCEPT !.pc = p]
-N1 == net.pc = "N1" /\ net' = [net EXCEPT !.pc = "N3", !.prior = served, !.quiet = (miner.pc = "done")] /\ UNCHANGED << served, lastValid, buffer, disk, bcast, miner >>
+N1 == net.pc = "N1" /\ net' = [net EXCEPT !.pc = "N3", !.prior = served, !.quiet = (miner.pc = "done")] /\ UNCHANGED << served, lastValid, buffer, disk, bcast, miner, sqlerr >>
 N3 == /\ net.pc = "N3"
       /\ net' = [net EXCEPT !.pc = IF ~SaveAfterValidation \/ ~XValidated THEN "N4" ELSE "N5", !.changed = net.prior \cup {X}]
-      /\ UNCHANGED << served, lastValid, buffer, disk, bcast, miner >>
+      /\ UNCHANGED << served, lastValid, buffer, disk, bcast, miner, sqlerr >>
 N4 == /\ net.pc = "N4" /\ buffer' = Append(buffer, X)
-      /\ NGo(IF ~XValidated THEN "N9" ELSE IF SaveAfterValidation THEN "N7" ELSE "N5")
-      /\ UNCHANGED << served, lastValid, disk, bcast, miner >>
-N5 == /\ net.pc = "N5" /\ net' = [net EXCEPT !.pc = IF XValid THEN "N6" ELSE "R1", !.tmp = lastValid]
-      /\ UNCHANGED << served, lastValid, buffer, disk, bcast, miner >>
+      /\ NGo(IF ~XValidated THEN "N9" ELSE IF ~SaveAfterValidation THEN "N5" ELSE IF SaveBeforePublish THEN "N6" ELSE "N7")
+      /\ UNCHANGED << served, lastValid, disk, bcast, miner, sqlerr >>
+N5 == /\ net.pc = "N5" /\ net' = [net EXCEPT !.pc = IF ~XValid THEN "R1" ELSE IF SaveAfterValidation /\ SaveBeforePublish THEN "N4" ELSE "N6", !.tmp = lastValid]
+      /\ UNCHANGED << served, lastValid, buffer, disk, bcast, miner, sqlerr >>
 R1 == /\ net.pc = "R1" /\ NGo("R2")
       /\ IF AtomicRollback THEN served' = lastValid /\ UNCHANGED lastValid
          ELSE served' = net.tmp /\ lastValid' = net.tmp
-      /\ UNCHANGED << buffer, disk, bcast, miner >>
+      /\ UNCHANGED << buffer, disk, bcast, miner, sqlerr >>
 R2 == /\ net.pc = "R2"
       /\ buffer' = IF SelectiveClear THEN SelectSeq(buffer, LAMBDA b : b \in lastValid) ELSE << >>
-      /\ NGo("done") /\ UNCHANGED << served, lastValid, disk, bcast, miner >>
+      /\ NGo("done") /\ UNCHANGED << served, lastValid, disk, bcast, miner, sqlerr >>
 N6 == /\ net.pc = "N6" /\ served' = net.changed /\ lastValid' = net.changed
-      /\ NGo(IF SaveAfterValidation THEN "N4" ELSE "N7") /\ UNCHANGED << buffer, disk, bcast, miner >>
-N7 == net.pc = "N7" /\ disk' = disk \cup Range(buffer) /\ buffer' = << >> /\ NGo("N8") /\ UNCHANGED << served, lastValid, bcast, miner >>
-N8 == net.pc = "N8" /\ (bcast' = bcast \cup {X} \/ UNCHANGED bcast) /\ NGo("done") /\ UNCHANGED << served, lastValid, buffer, disk, miner >>
-N9 == net.pc = "N9" /\ served' = net.changed /\ NGo("done") /\ UNCHANGED << lastValid, buffer, disk, bcast, miner >>
+      /\ NGo(IF SaveAfterValidation /\ ~SaveBeforePublish THEN "N4" ELSE "N7") /\ UNCHANGED << buffer, disk, bcast, miner, sqlerr >>
+Flush == IF FlushOK THEN disk' = disk \cup Range(buffer) /\ buffer' = << >> /\ UNCHANGED sqlerr
+         ELSE sqlerr' = (sqlerr \/ buffer # << >>) /\ UNCHANGED << disk, buffer >>
+N7 == net.pc = "N7" /\ Flush /\ NGo("N8") /\ UNCHANGED << served, lastValid, bcast, miner >>
+N8 == net.pc = "N8" /\ (bcast' = bcast \cup {X} \/ UNCHANGED bcast) /\ NGo("done") /\ UNCHANGED << served, lastValid, buffer, disk, miner, sqlerr >>
+N9 == net.pc = "N9" /\ served' = net.changed /\ NGo("done") /\ UNCHANGED << lastValid, buffer, disk, bcast, miner, sqlerr >>
 
 MGo(p) == miner' = [miner EXCEPT !.pc = p]
-M1 == miner.pc = "M1" /\ miner' = [pc |-> "M4", snap |-> served] /\ UNCHANGED << served, lastValid, buffer, disk, bcast, net >>
-M4 == miner.pc = "M4" /\ miner' = [pc |-> "M5", snap |-> miner.snap \cup {B}] /\ UNCHANGED << served, lastValid, buffer, disk, bcast, net >>
-M5 == miner.pc = "M5" /\ served' = miner.snap /\ lastValid' = (IF MinerHandOverValidated THEN miner.snap ELSE lastValid) /\ MGo("M6") /\ UNCHANGED << buffer, disk, bcast, net >>
-M6 == miner.pc = "M6" /\ bcast' = bcast \cup {B} /\ MGo("M7") /\ UNCHANGED << served, lastValid, buffer, disk, net >>
-M7 == miner.pc = "M7" /\ buffer' = Append(buffer, B) /\ MGo("M8") /\ UNCHANGED << served, lastValid, disk, bcast, net >>
-M8 == miner.pc = "M8" /\ disk' = disk \cup Range(buffer) /\ buffer' = << >> /\ MGo("done") /\ UNCHANGED << served, lastValid, bcast, net >>
+M1 == miner.pc = "M1" /\ miner' = [pc |-> "M4", snap |-> served] /\ UNCHANGED << served, lastValid, buffer, disk, bcast, net, sqlerr >>
+M4 == miner.pc = "M4" /\ miner' = [pc |-> "M5", snap |-> miner.snap \cup {B}] /\ UNCHANGED << served, lastValid, buffer, disk, bcast, net, sqlerr >>
+M5 == miner.pc = "M5" /\ served' = miner.snap /\ lastValid' = (IF MinerHandOverValidated THEN miner.snap ELSE lastValid) /\ MGo("M6") /\ UNCHANGED << buffer, disk, bcast, net, sqlerr >>
+M6 == miner.pc = "M6" /\ bcast' = bcast \cup {B} /\ MGo("M7") /\ UNCHANGED << served, lastValid, buffer, disk, net, sqlerr >>
+M7 == miner.pc = "M7" /\ buffer' = Append(buffer, B) /\ MGo("M8") /\ UNCHANGED << served, lastValid, disk, bcast, net, sqlerr >>
+M8 == miner.pc = "M8" /\ Flush /\ MGo("done") /\ UNCHANGED << served, lastValid, bcast, net >>
 
 NetStep == N1 \/ N3 \/ N4 \/ N5 \/ R1 \/ R2 \/ N6 \/ N7 \/ N8 \/ N9
 MinerStep == M1 \/ M4 \/ M5 \/ M6 \/ M7 \/ M8
@@ -89,6 +101,8 @@ I_C09_RejectedNotStored == Rejected => X \notin disk
 I_C09_RejectedNotServed == (Rejected /\ net.pc = "done") => X \notin served
 (* C01 / C09: "the chain state the node held before the attempt is left exactly as it was" -- when nothing else happens during the attempt *)
 I_C09_RejectionLeavesStateAsItWas == (Rejected /\ net.pc = "done" /\ net.quiet) => served = net.prior
+(* C09 / C12: "is written to the block store": no flush of accepted blocks fails (a block reaches the chain table only after its parent) *)
+I_C09_NoFlushFailure == ~sqlerr
 (* C09: an accepted relay block is written to the store *)
 I_C09_AcceptedStored == (XValidated /\ XValid /\ net.pc \in {"N8", "done"}) => X \in disk
 (* C12: the found block is written to the block store and broadcast; it is part of the served state when the hand-over is made *)
